@@ -68,3 +68,26 @@ Definition documented_order (fw : flavour) (first_to_last : bool) (n : nat) : li
   | Gin | Fiber | Iris => seq 0 n
   | Echo => []
   end.
+
+(** * The mounted server over its life.  The wrapper holds the configured middlewares in a slice; that slice is
+      the only state a request could change.  [serve] is what the templates do (the slice is read, never written);
+      [serve_reversing] is the variant that reverses the slice in place before wrapping (refuted below). *)
+Definition slice := list (nat * mw).
+Definition inner_of (strict : option (list mw)) : list event :=
+  match strict with Some sm => strict_chain sm | None => [EHandler] end.
+Definition serve (fw : flavour) (ftl : bool) (strict : option (list mw)) (s : slice) : slice * list event :=
+  (s, match fw with
+      | Chi | Gorilla | StdHTTP => wrap_loop EMw (if ftl then rev s else s) (inner_of strict)
+      | Gin | Fiber | Iris => seq_loop EMw s (inner_of strict)
+      | Echo => inner_of strict
+      end).
+Fixpoint serve_n (step : slice -> slice * list event) (s : slice) (n : nat) : list (list event) :=
+  match n with
+  | O => []
+  | S k => let st := step s in snd st :: serve_n step (fst st) k
+  end.
+(** the trace of request number k (from 0) on a freshly mounted server *)
+Definition nth_request (fw : flavour) (ftl : bool) (ms : list mw) (strict : option (list mw)) (k : nat) : list event :=
+  nth k (serve_n (serve fw ftl strict) (indexed ms) (S k)) [].
+Definition serve_reversing (ftl : bool) (strict : option (list mw)) (s : slice) : slice * list event :=
+  let s' := if ftl then rev s else s in (s', wrap_loop EMw s' (inner_of strict)).
